@@ -2,4 +2,4 @@ From UV Require Import Lib.Base Model.Process.
 Require Extraction.
 Require Import ExtrOcamlBasic.
 Extraction Language OCaml.
-Extraction "m_c12.ml" linit run dump decode child_init uv_spawn disable_stdio_inheritance.
+Extraction "m_c12.ml" linit run dump decode child_init uv_spawn disable_stdio_inheritance uv_kill uv_process_kill.
